@@ -11,6 +11,8 @@
 //	   -> gone ev=<events> rec=<status>
 //	abort s=<status> n=<len> sent=<k> seed=<k> mode=cl|chunked      head + k body bytes, then RST
 //	   -> aborted ev=<events> rec=<status>      (anything else if the client was handed a complete response)
+//	presp c=<k> s=<status> d=<n>:<dig0>/<dig1>/.. seed=<base> mode=cl|chunked     k concurrent clients, client i is sent fx.Body(base+i, n)
+//	   -> <status>:<n>:<dig0> <status>:<n>:<dig1> .. evc=<#connected>/<#disconnected>
 //	listener ret|panic|abort                   StateListener around a handler that returns / panics / panics with ErrAbortHandler
 //	   -> 200|eof ev=<events> rec=<status|->
 //
@@ -73,6 +75,7 @@ type h struct {
 	events  []string
 	rec     *recorder
 	done    chan struct{}
+	pending int
 	target  *url.URL // where the wrapper points the request
 	inner   string   // "", "ret", "panic", "abort": what the innermost handler does instead of forwarding
 	srv     *httptest.Server
@@ -130,7 +133,15 @@ func newScenario(cfg []string) (hx.Handler, string) {
 		s.rec = rec
 		done := s.done
 		s.mu.Unlock()
-		defer close(done)
+		defer func() {
+			s.mu.Lock()
+			s.pending--
+			last := s.pending == 0
+			s.mu.Unlock()
+			if last {
+				close(done)
+			}
+		}()
 		sl.ServeHTTP(rec, r)
 	})
 	s.srv = httptest.NewUnstartedServer(outer)
@@ -173,8 +184,11 @@ func (s *h) tail() string {
 	return fmt.Sprintf(" ev=%s rec=%s", strings.Join(s.events, ","), rec)
 }
 
-func (s *h) prepare(target string, inner string) {
+func (s *h) prepare(target string, inner string) { s.prepareN(target, inner, 1) }
+
+func (s *h) prepareN(target string, inner string, k int) {
 	s.mu.Lock()
+	s.pending = k
 	s.events = nil
 	s.rec = nil
 	s.done = make(chan struct{})
@@ -281,6 +295,79 @@ func (s *h) Op(f []string) string {
 			out = fmt.Sprintf("%d body=%s H %s", res.Status, fx.Sum(res.Body), fx.CanonHeaders(res.Headers, fx.ClientDrop))
 		}
 		return strings.Join(strings.Fields(out+s.tail()), " ")
+	case "presp":
+		k := hx.KVInt(f, "c", 2)
+		status := hx.KVInt(f, "s", 200)
+		mode, _ := hx.KV(f, "mode")
+		seed := hx.KVInt(f, "seed", 1)
+		d, _ := hx.KV(f, "d")
+		n := hx.Atoi(strings.SplitN(d, ":", 2)[0])
+		if k < 1 || k > 16 {
+			return "bad-op"
+		}
+		s.prepareN(s.be.Addr, "", k)
+		var arrived sync.WaitGroup
+		arrived.Add(k)
+		allIn := make(chan struct{})
+		go func() { arrived.Wait(); close(allIn) }()
+		s.be.SetScript(func(c net.Conn, _ *bufio.Reader, r *fx.RawReq) bool {
+			idx := hx.Atoi(r.Target[strings.LastIndexByte(r.Target, '/')+1:])
+			arrived.Done()
+			select { // respond together so that the proxy copies the bodies concurrently
+			case <-allIn:
+			case <-time.After(time.Second):
+			}
+			body := fx.Body(seed+idx, n)
+			bw := bufio.NewWriterSize(c, 16<<10)
+			fmt.Fprintf(bw, "HTTP/1.1 %d X\r\nContent-Type: application/octet-stream\r\n", status)
+			if mode == "chunked" {
+				bw.WriteString("Transfer-Encoding: chunked\r\n\r\n")
+			} else {
+				fmt.Fprintf(bw, "Content-Length: %d\r\n\r\n", n)
+			}
+			for off := 0; off < n; off += 8192 {
+				end := off + 8192
+				if end > n {
+					end = n
+				}
+				if mode == "chunked" {
+					fmt.Fprintf(bw, "%x\r\n", end-off)
+					bw.Write(body[off:end])
+					bw.WriteString("\r\n")
+				} else {
+					bw.Write(body[off:end])
+				}
+				bw.Flush()
+			}
+			if mode == "chunked" {
+				bw.WriteString("0\r\n\r\n")
+				bw.Flush()
+			}
+			c.Close()
+			return false
+		})
+		outs := make([]string, k)
+		var wg sync.WaitGroup
+		for i := 0; i < k; i++ {
+			wg.Add(1)
+			go func(i int) {
+				defer wg.Done()
+				raw := fmt.Sprintf("GET /c16/%d HTTP/1.1\r\nHost: client.example\r\n\r\n", i)
+				res, err := fx.Do(addr, "GET", []byte(raw), 4*time.Second, nil)
+				switch {
+				case err != nil:
+					outs[i] = "err"
+				case !res.Head || !res.Complete:
+					outs[i] = "aborted"
+				default:
+					outs[i] = fmt.Sprintf("%d:%s", res.Status, fx.Sum(res.Body))
+				}
+			}(i)
+		}
+		wg.Wait()
+		t := s.tail() // waits for all handlers
+		nc, nd := strings.Count(t, "connected")-strings.Count(t, "disconnected"), strings.Count(t, "disconnected")
+		return strings.Join(outs, " ") + fmt.Sprintf(" evc=%d/%d", nc, nd)
 	case "fail":
 		if len(f) < 2 {
 			return "bad-op"
